@@ -40,6 +40,10 @@ pub struct Scenario {
     /// block size that is followed by more reads
     #[serde(default)]
     pub short_at: Option<usize>,
+    /// `config.block_size` when it differs from the block-size argument `bs` (0 = the same): the argument
+    /// decides, the configuration's value must not matter
+    #[serde(default)]
+    pub cfg_bs: usize,
 }
 
 impl Scenario {
@@ -170,7 +174,7 @@ impl Source for ScriptSource {
 
 pub fn make_cfg(sc: &Scenario, multithread: bool) -> Verified<config::Encoder> {
     let mut e = config::Encoder::default();
-    e.block_size = sc.bs;
+    e.block_size = if sc.cfg_bs > 0 { sc.cfg_bs } else { sc.bs };
     e.multithread = multithread;
     e.workers = std::num::NonZeroUsize::new(sc.workers_cfg);
     // a cheap but non-trivial coding setup (fixed + low-order LPC, stereo decisions on)
